@@ -243,7 +243,7 @@ func registerAndCommit(c *Ctx) {
 				mu := u.(*ssa.MapUpdate)
 				want := aM(q.param(0)+".consumers", aP(q.param(1))).Plus(aP(q.param(2)))
 				q.expectLin("LIN", "committed offset advances by exactly the delta", mu.Value, want, u)
-				q.add("PROV", "commit updates the committing consumer's entry", mu.Key == ssa.Value(q.fn.Params[1]), "key is the consumer parameter", u)
+				q.add("PROV", "commit updates the committing consumer's entry", srcIs(P, mu.Key, q.fn.Params[1]) && len(P.Sources(mu.Key)) == 1, "key is the consumer parameter", u)
 				// unknown consumer => error, no store
 				has := aHas(q.param(0)+".consumers", aP(q.param(1)))
 				q.expectCond("COND", "the store happens iff the consumer is registered", u, nil, an.DNF{conj(lit(has, an.SPos))}, keepForms(has))
